@@ -62,11 +62,17 @@ package adminapi
 //@   ensures result != nil && ptr(result) == funcid("(*IPFilter).Middleware$1")
 
 // ---- filter construction: one malformed entry means no filter object at all (the caller must fail closed)
+// A list entry that is a single address denotes exactly that host: the network is that address (its 4-byte
+// form when it has one - dotted-quad text and IPv4-mapped text such as ::ffff:10.0.0.1 alike) under a
+// full-length mask. (Membership in such a network is the library's: exactly that address.)
+//@ pred hostNetwork(n *net.IPNet, a int) := is4(a) ? (n.IP.base == to4_of(a) && n.Mask.base == cidr_mask(32, 32))
+//@      : (n.IP.base == a && n.Mask.base == cidr_mask(128, 128))
 //@ func parseCIDR
 //@   props C10
 //@   results n, err
 //@   ensures well_formed_gives_network: err == nil ==> n != nil
 //@   ensures malformed_is_an_error: !cidr_ok(cidr) && !ip_ok(cidr) ==> err != nil
+//@   ensures single_address_entry_is_exactly_that_host: ip_ok(cidr) && !cidr_ok(cidr) ==> err == nil && n != nil && hostNetwork(n, ip_ref(cidr))
 // NewIPFilter: every entry of both lists becomes one rule, in order; the first malformed entry ends the
 // construction with an error and no filter object (so a blank or mistyped entry can never shrink a list).
 //@ pred cidrEntryOK(s string) := cidr_ok(s) || ip_ok(s)
